@@ -24,7 +24,7 @@ def outcome(r, ok_rcs):
     txt = (r["stderr"] or "") + "\n" + (r["stdout"] or "")[-20000:]
     if r["rc"] == 124 or "TIMEOUT" in (r["stderr"] or "")[:20]:
         return "timeout"
-    if CRASH.search(txt):
+    if lib.crash_in(txt):
         return "crash"
     if r["rc"] not in ok_rcs:
         return "exit %s" % r["rc"]
